@@ -258,6 +258,13 @@ def control_noise(ctx, rng, desc):
         # the hypervisor's instruction traps (WFI / WFE / SMC / BXJ): an instruction they do not name is not affected by them
         r.hcr.twi, r.hcr.twe, r.hcr.tsc = (1 if rng.random() < 0.3 else 0 for _ in range(3))
         r.hstr.tjdbx = 1 if rng.random() < 0.3 else 0
+    if rng.random() < 0.3:
+        # coprocessor access controls at arbitrary values: they gate coprocessor instructions and nothing else
+        r.cpacr.value = rng.getrandbits(32) & 0x0FFFFFFF
+        if cfg['have_security_ext']:
+            r.nsacr.value = (r.nsacr.value & ~0x3FFF) | rng.getrandbits(14)
+        if cfg['have_virt_ext']:
+            r.hcptr.value = rng.getrandbits(14) | (rng.getrandbits(1) << 15) | (rng.getrandbits(1) << 20)
     if cfg['arch_version'] >= 6 and rng.random() < 0.15:
         r.sctlr.a = 1                              # strict alignment checking (a family's own hook may still override it)
     desc['control_noise'] = dict(sctlr='%#x' % r.sctlr.value, scr='%#x' % r.scr.value, vbar='%#x' % r.vbar.value,
